@@ -49,6 +49,12 @@ theorem stop_static (x : Act) (r : Res) :
     (x.stop r).phase = .finished :=
   ⟨⟨rfl, rfl, rfl, rfl, rfl⟩, rfl, rfl, rfl, rfl, rfl, rfl⟩
 
+theorem stopDeps_static (x : Act) (r : Res) :
+    Act.SameStatic (x.stopDeps r) x ∧ (x.stopDeps r).holds = x.holds ∧ (x.stopDeps r).key = x.key ∧
+    (x.stopDeps r).waitsFor = x.waitsFor ∧ (x.stopDeps r).started = x.started ∧
+    (x.stopDeps r).res = depErr x.indirect r ∧ (x.stopDeps r).phase = .finished :=
+  ⟨⟨rfl, rfl, rfl, rfl, rfl⟩, rfl, rfl, rfl, rfl, rfl, rfl⟩
+
 theorem afterCmd_static (x : Act) (c : Cmd) (r : Res) :
     Act.SameStatic (x.afterCmd c r) x ∧ (x.afterCmd c r).holds = x.holds ∧ (x.afterCmd c r).key = x.key ∧
     (x.afterCmd c r).waitsFor = x.waitsFor ∧ (x.afterCmd c r).started = x.started ∧
@@ -105,6 +111,7 @@ theorem stepLocal_static (F : Flags) (o : Obs) (x : Act) (ev : Ev) (y : Act) (ef
   steplocal_cases h
   all_goals (try exact ⟨rfl, rfl, rfl, rfl, rfl⟩)
   all_goals (try exact (stop_static _ _).1)
+  all_goals (try exact (stopDeps_static _ _).1)
   all_goals (try exact (next_static _ _ _).1)
   all_goals (try exact (afterCmd_static _ _ _).1)
   all_goals (try exact (afterDefer_static _).1)
@@ -164,6 +171,7 @@ theorem stepLocal_holds (F : Flags) (o : Obs) (x : Act) (ev : Ev) (y : Act) (eff
     have hx' : x.holds = true := by simp_all [holdPhase]
     first
     | exact holds_keep o x _ (stop_static _ _).2.1 rfl hx'
+    | exact holds_keep o x _ (stopDeps_static _ _).2.1 rfl hx'
     | exact holds_keep o x _ (next_static _ _ _).2.1 (holdPhase_after (next_static _ _ _).2.2.2.2.2.2) hx'
     | exact holds_keep o x _ (afterCmd_static _ _ _).2.1 (holdPhase_after (afterCmd_static _ _ _).2.2.2.2.2) hx'
     | exact holds_keep o x _ (afterDefer_static _).2.1 (holdPhase_after (.inr (afterDefer_static _).2.2.2.2.2.2)) hx'))
@@ -194,6 +202,8 @@ theorem stepLocal_entered (F : Flags) (o : Obs) (x : Act) (ev : Ev) (y : Act) (e
     all_goals first
     | exact (afterPhase_ne (.inr (.inr (stop_static _ _).2.2.2.2.2.2))).1
     | exact (afterPhase_ne (.inr (.inr (stop_static _ _).2.2.2.2.2.2))).2
+    | exact (afterPhase_ne (.inr (.inr (stopDeps_static _ _).2.2.2.2.2.2))).1
+    | exact (afterPhase_ne (.inr (.inr (stopDeps_static _ _).2.2.2.2.2.2))).2
     | exact (afterPhase_ne (next_static _ _ _).2.2.2.2.2.2).1
     | exact (afterPhase_ne (next_static _ _ _).2.2.2.2.2.2).2
     | exact (afterPhase_ne (afterCmd_static _ _ _).2.2.2.2.2).1
